@@ -8,6 +8,14 @@ for sel, un in (("H_DECODE", 3), ("H_ENCODE_S", 3), ("H_ENCODE_I", 3), ("H_IDENT
                        include_env=(), functions=_fn,
                        bounds="all 256 codes / all 2^16 shorts / all 2^32 ints symbolic; count 1 (3 in H_STRIDE)"))
 
+for law in ("ulaw", "alaw"):
+    for t, tn in (("f", "float"), ("d", "double")):
+        d = {"FD_T": tn, "READ_FN": "%s_read_%s2%s" % (law, law, t), "WRITE_FN": "%s_write_%s2%s" % (law, t, law), "MF_CAP": 16, "MF_MAXIO": 16, "LIBSNDFILE_VERIF_BUFFER_LEN": 16}
+        if law == "ulaw": d["IS_ULAW"] = 1
+        HARNESSES.append(H("g711fd.%s.%s" % (law, tn), "C20/g711_fd.c", link=["common"], stubs=["psf_log_printf"], defines=d, unwind=6, unwindset=["psf_fread.0:17", "psf_fwrite.0:17"], checks="mem",
+                           solver="cadical", include_env=("log_stub", "memfile", "libm_model"), timeout=300, functions=[d["READ_FN"], d["WRITE_FN"], "%s2%s_array" % (law, t), "%s2%s_array" % (t, law)],
+                           bounds="all 256 codes, default normalisation, one item"))
+
 # H4: ADPCM block decoders vs independent reference decoders, every block byte symbolic
 _ADPCM = [  # (selector, file, channels, block bytes, samples per block, tiers, timeout, predictor number on the grid or None)
     ("SEL_IMA_WAV", "ima_adpcm.c", 1, 8, 9, ("quick", "thorough"), 600, None),
